@@ -32,7 +32,8 @@ def boom_base():
     raise HostBase('metric expression raised a BaseException')
 
 
-HOST_GLOBALS = {'G': 100, 'boom_base': boom_base, '__name__': 'c17_host'}
+# the module also has globals named like two of the function's locals (n, s): the local is what the line sees
+HOST_GLOBALS = {'G': 100, 'boom_base': boom_base, '__name__': 'c17_host', 'n': 1000, 's': 'module-level s'}
 
 
 class EmptyRegistryProcessor(lab.RecMetricProcessor):
